@@ -100,6 +100,26 @@ def explore(cfg, env0, funcs=None, on_node=None, max_states=20000, start=None, u
                         hash(env2[p])
                     except (A.NotClosed, TypeError, AttributeError, IndexError, KeyError, ValueError):
                         env2.pop(p, None)
+            # stack operations on a closed tuple value:  x = L.pop() / L.pop() / del L[-1]
+            popc = None
+            if nd.kind == 'stmt' and isinstance(a, ast.Assign) and isinstance(a.value, ast.Call):
+                popc = a.value
+            elif nd.kind == 'stmt' and isinstance(a, ast.Expr) and isinstance(a.value, ast.Call):
+                popc = a.value
+            if popc is not None and isinstance(popc.func, ast.Attribute) and popc.func.attr == 'pop' and not popc.keywords \
+                    and (not popc.args or (len(popc.args) == 1 and isinstance(popc.args[0], ast.UnaryOp) and A.const(popc.args[0].operand) == 1
+                                           and isinstance(popc.args[0].op, ast.USub))):
+                p = path_of(popc.func.value)
+                if p and p in env and isinstance(env[p], tuple) and env[p] and p not in pinned:
+                    env2[p] = env[p][:-1]
+                    if isinstance(a, ast.Assign) and len(a.targets) == 1 and path_of(a.targets[0]):
+                        env2[path_of(a.targets[0])] = env[p][-1]
+            if nd.kind == 'stmt' and isinstance(a, ast.Delete) and len(a.targets) == 1 and isinstance(a.targets[0], ast.Subscript):
+                p = path_of(a.targets[0].value)
+                ix = a.targets[0].slice
+                if p and p in env and isinstance(env[p], tuple) and env[p] and p not in pinned and isinstance(ix, ast.UnaryOp) \
+                        and isinstance(ix.op, ast.USub) and A.const(ix.operand) == 1:
+                    env2[p] = env[p][:-1]
             if nd.kind == 'stmt' and isinstance(a, ast.AugAssign):
                 p = path_of(a.target)
                 if p and p not in pinned and p in env:
@@ -151,3 +171,44 @@ def derefs_of(cfg, node, name):
     if node.kind == 'stmt' and isinstance(node.stmt, ast.For) and node.ast is node.stmt.iter and isinstance(node.ast, ast.Name) and node.ast.id == name:
         out.append(node.ast)
     return out
+
+
+class NotClosedTest(Exception):
+    pass
+
+
+def traces(cfg, env0, call_key, funcs=None, max_states=20000):
+    """Run a function from its entry under the closed environment `env0` and collect, for every way it can end, the
+    sequence of calls of interest made on the way: `call_key(call)` names a call (or returns None to ignore it); its
+    arguments are evaluated in the environment of the moment (text of the expression when not closed).  Returns the
+    set of (trace, final-environment-items) - one element when the run is determined by `env0`.  A test that cannot be
+    decided raises NotClosedTest: the caller must not guess."""
+    results = set()
+
+    def on_node(nd, env):
+        tr = env.get('@trace', ())
+        for x in cfg.walk_exprs(nd):
+            if isinstance(x, ast.Call):
+                k = call_key(x)
+                if k is not None:
+                    vals = []
+                    for a_ in x.args:
+                        try:
+                            v = A.ev(a_, env, funcs)
+                            hash(v)
+                        except Exception:
+                            v = ('expr', ast.unparse(a_))
+                        vals.append(v)
+                    tr = tr + ((k, tuple(vals)),)
+        env['@trace'] = tr
+        if nd is cfg.exit or nd.kind == 'return' and False:
+            pass
+        if nd is cfg.exit:
+            results.add((tr, tuple(sorted((k_, v_) for k_, v_ in env.items() if not k_.startswith('@')))))
+
+    def unk(nd, env):
+        raise NotClosedTest(ast.unparse(nd.ast) if nd.ast is not None else '?')
+    e0 = dict(env0)
+    e0['@trace'] = ()
+    explore(cfg, e0, funcs=funcs, on_node=on_node, on_unknown=unk, max_states=max_states)
+    return results
